@@ -73,6 +73,7 @@ def _fz(tier, n):
 
 
 def cases(tier):
+    yield Case("storage", {"kind": "storage"})
     step = _step(tier)
     for n in _sizes(tier):
         for origin in ("middle", "corner"):
@@ -116,6 +117,8 @@ def cases(tier):
 
 
 def evaluate(p):
+    if p["kind"] == "storage":
+        return _storage(p)
     kind = p["kind"]
     with warnings.catch_warnings():
         warnings.simplefilter("ignore")
@@ -446,4 +449,40 @@ def _scatter(p):
                                                                             numpy.dtype(mdtype).name), ok,
                         {"mask": mi, "code": c, "out": out})
     agg.flush(o)
+    return o
+
+
+def _storage(p):
+    """masks are 0/1 arrays whatever their dtype or memory layout: selection, fill factors and the scatter of
+    slopes must not depend on how the mask is stored; circle() must accept numpy scalars for its arguments"""
+    from mc import variants
+    from aotools.wfs import wfslib
+    from aotools.functions import pupil
+    o = Out()
+    mask = numpy.array(pupil.circle(5.5, 12) - pupil.circle(1.5, 12))
+    kinds = ("float32", "int64", "int32", "uint8")
+    for subaps in (3, 4, 6):
+        for thr in (0.0, 0.5, 1.0):
+            for fill in (False, True):
+                f = (lambda a: wfslib.findActiveSubaps(subaps, a, thr, returnFill=True)) if fill else \
+                    (lambda a: wfslib.findActiveSubaps(subaps, a, thr))
+                n = variants.check_storage(o, "selection_independent_of_mask_storage", f, mask, 1e-12,
+                                           sub="subaps=%d:thr=%g:fill=%s" % (subaps, thr, fill), kinds=kinds)
+                o.stat("lib_calls", n)
+            n = variants.check_storage(o, "selection_independent_of_mask_storage",
+                                       lambda a: wfslib.findActiveSubaps(subaps, a.astype(bool), thr), mask, 1e-12,
+                                       sub="subaps=%d:thr=%g:bool" % (subaps, thr), kinds=(), with_layouts=True)
+            o.stat("lib_calls", n)
+    pos = numpy.array([[0., 0.], [3., 3.], [6., 3.], [9., 9.]])
+    n = variants.check_storage(o, "selection_independent_of_mask_storage",
+                               lambda a: wfslib.computeFillFactor(a, pos, 3), mask, 1e-12, sub="fill", kinds=kinds)
+    o.stat("lib_calls", n)
+    # numpy scalars as circle arguments
+    for r, nn, c in ((2.5, 6, (0.5, -0.5)), (3, 7, (1, 0)), (1.25, 5, (0, 0))):
+        want = numpy.asarray(pupil.circle(r, nn, c))
+        for tname, cast in (("np_float64", numpy.float64), ("np_float32", numpy.float32)):
+            got = numpy.asarray(pupil.circle(cast(r), numpy.int64(nn), (cast(c[0]), cast(c[1]))))
+            o.stat("lib_calls", 1)
+            o.check("circle_accepts_numpy_scalars", got.shape == want.shape and numpy.array_equal(got, want),
+                    sub="r=%g:n=%d:%s" % (r, nn, tname))
     return o
